@@ -114,7 +114,7 @@ def computeEdges (data : List Byte) (w ws minMatch maxMatch : Nat) : OsapD :=
     let maxLen := min (lcp.foldl max 0) maxMatch
     let woff : Int := (winStart : Int) - (w : Int)
     match segments sa.size lcp (minMatch : Int) (maxLen : Int) with
-    | none => { edges := edges0, start := w, nEdges := 0 }   -- unreachable: arguments are in range
+    | none => { edges := edges0, start := w, nEdges := 0 }   -- minMatch > MaxInt32 ≥ maxLen: the Go code returns before calling Segments (fix 7b1daf1); same result
     | some cbs =>
       let (edges, cnt) := cbs.foldl (fun acc cb =>
           let (m, lo, hi) := cb
